@@ -26,6 +26,9 @@ import (
 	"github.com/pierrec/lz4"
 )
 
+// lz4MaxExpansion the max expansion ratio of lz4 block
+const lz4MaxExpansion = 255
+
 func doLZ4Encode(data []byte, level int) ([]byte, error) {
 	buf := make([]byte, len(data))
 	n, err := lz4.CompressBlock(data, buf, nil)
@@ -37,11 +40,23 @@ func doLZ4Encode(data []byte, level int) ([]byte, error) {
 }
 
 func doLZ4Decode(buf []byte) ([]byte, error) {
-	dst := make([]byte, 10*len(buf))
-	n, err := lz4.UncompressBlock(buf, dst)
-	if err != nil {
-		return nil, err
+	// lz4 block的最大压缩比为255倍，先使用10倍的空间解压，
+	// 如果空间不足则扩大空间重试，直至最大压缩比
+	maxSize := lz4MaxExpansion * len(buf)
+	size := 10 * len(buf)
+	for {
+		if size > maxSize {
+			size = maxSize
+		}
+		dst := make([]byte, size)
+		n, err := lz4.UncompressBlock(buf, dst)
+		if err == nil {
+			return dst[:n], nil
+		}
+		// 出错（非空间不足）或已是最大空间则返回
+		if err != lz4.ErrInvalidSourceShortBuffer || size >= maxSize {
+			return nil, err
+		}
+		size *= 4
 	}
-	dst = dst[:n]
-	return dst, nil
 }
